@@ -178,7 +178,8 @@ def run_case(spec, ctx, R):
             # large budgets only for a rotating subset of variants per matrix (cost control); small budgets for all
             if budget >= 300 and (vi + spec["idx"]) % 3 != 0:
                 continue
-            tol = [1e-8, 1e-10, 1e-12][(vi + bi + spec["idx"]) % 3]
+            # the caller's tolerance, also tighter than any default a variant may carry (1e-14: the bound below then sits at round-off level)
+            tol = [1e-8, 1e-10, 1e-12, 1e-14][(vi + bi + spec["idx"]) % 4]
             ctx.distinct(A, site, budget, tol, nontrivial=n >= 2)
             try:
                 out = f(A, max_iter=budget, tol=tol, return_diagnostics=True, **kw)
